@@ -294,7 +294,9 @@ fn run_one(u: &Universe, a: &RefState, real_a: &WarpState, ops: Vec<WarpOp>) -> 
     (Ok(v), Some(post), changing)
 }
 
-fn run_family(r: &Report, fam: &Family, viol: &mut BTreeMap<String, (u64, Value)>) -> bool {
+type Gens = Vec<(String, Vec<String>, u8)>;
+
+fn run_family(r: &Report, fam: &Family, viol: &mut BTreeMap<String, (u64, Value)>, gens: &mut Gens) -> bool {
     let t0 = r.elapsed_s();
     let uni = fam.uni;
     let parts: Vec<Option<TickAcc>> = fam
@@ -409,7 +411,7 @@ fn run_family(r: &Report, fam: &Family, viol: &mut BTreeMap<String, (u64, Value)
         (x.0.as_str(), x.1.len(), x.2.count_ones(), fam.sets[x.4 as usize].len(), &x.1, x.2, sz(x.3), x.3, x.4)
             .cmp(&(y.0.as_str(), y.1.len(), y.2.count_ones(), fam.sets[y.4 as usize].len(), &y.1, y.2, sz(y.3), y.3, y.4))
     });
-    let mut gens: Vec<(String, Vec<String>, u8)> = Vec::new();
+    // (generators persist across families, smallest op sets are run first)
     for (head, parts, kinds, si, oi) in &occ {
         let g = match gens
             .iter()
@@ -571,12 +573,13 @@ pub fn run(r: &Report, viol: &mut BTreeMap<String, (u64, Value)>) {
             alpha: alb.clone(),
         });
     }
+    let mut gens: Gens = Vec::new();
     for f in &fams {
         if r.over_budget_frac(0.9) {
             r.cap_hit(&format!("tick emulation family '{}' not run (time budget)", f.label));
             continue;
         }
-        run_family(r, f, viol);
+        run_family(r, f, viol, &mut gens);
     }
     r.guard("tick_emulation:ticks_committed>0", r.counter_value("tick_emulation:ticks_committed_changing_state") > 0);
     r.guard("tick_emulation:replay_exact>0", r.counter_value("tick_emulation:replay_exact") > 0);
